@@ -76,11 +76,6 @@ def spec_explicit(content):
     return None
 
 
-def short_bom(content):
-    """region of the known finding C08-short-bom: the UTF-16 LE BOM with fewer than four bytes of data"""
-    return isinstance(content, bytes) and len(content) < 4 and content[:2] == b'\xff\xfe'
-
-
 # ---------------------------------------------------------------------------------------------------
 # A: the ladder table
 class ReadCase:
@@ -507,6 +502,14 @@ def spec_tree_violations(c, res):
             if not same_codec(sheet.encoding, ov):
                 out.append({'clause': 'an explicit override is the reported encoding of the sheet',
                             'detail': {'reported': sheet.encoding, 'override': ov}})
+    # parseUrl: what the ladder finds for the root itself (HTTP, BOM/@charset) is the root's encoding: it reports it
+    # and its imports inherit it
+    root_found = None
+    if c.mode == 'pu' and not ov:
+        root_found = c.rootnode.http or spec_explicit(c.rootnode.render()) or None
+        if root_found and not same_codec(sheet.encoding, root_found):
+            out.append({'clause': 'a sheet loaded by URL reports the encoding it was read in',
+                        'detail': {'reported': sheet.encoding, 'read_in': root_found}})
     # walk records with their parents
     stack = {0: sheet}
     for r in res['recs']:
@@ -525,6 +528,8 @@ def spec_tree_violations(c, res):
             want = node.http
         elif spec_explicit(content) is not None:
             want = spec_explicit(content)
+        elif parent is sheet and root_found:
+            want = root_found
         elif eff(parent):
             want = eff(parent)
         else:
@@ -532,13 +537,11 @@ def spec_tree_violations(c, res):
         if not r['found']:
             # legitimate reasons: recursion, undecodable
             continue
-        pu_region = (c.mode == 'pu' and not ov and r['enctype'] == 0)
         if not same_codec(r['used'], want):
             out.append({'clause': 'an imported sheet is decoded with the first applicable of override / HTTP / '
                                   'BOM-or-@charset / referring sheet / UTF-8',
                         'detail': {'url': r['url'], 'depth': r['depth'], 'used': r['used'], 'enctype': r['enctype'],
-                                   'spec': want},
-                        'parseurl_region': pu_region})
+                                   'spec': want}})
             continue
         if isinstance(content, bytes):
             try:
@@ -1001,14 +1004,6 @@ def known_still_fails(cssutils, finding):
     if fid == 'C08-atkeyword-escape':
         r = reparse(cssutils, w['text'], w['encoding'])
         return r['status'] == 'diff'
-    if fid == 'C08-parseurl-override':
-        c = TreeCase.from_json(w)
-        res = run_tree(cssutils, c)
-        return res['status'] == 'ok' and any(v.get('parseurl_region') for v in spec_tree_violations(c, res))
-    if fid == 'C08-short-bom':
-        from cssutils.util import _readUrl
-        r = _readUrl('http://h/x.css', fetcher=lambda u: (None, bytes.fromhex(w['bytes'])))
-        return r[1] != 2
     if fid == 'C08-inorder-index':
         steps, final, viol = run_edits(cssutils, w['ops'])
         return any(v.get('known') == fid for v in viol)
